@@ -161,6 +161,12 @@ def _result_of(t, st):
                 return st
             if (sa, sb) == (2, 1):
                 return {"<": ">", ">": "<", "=": "="}[st]
+    if t[0] == "call" and callee_name(t) in ("call", "call_once", "call_mut") and t[2] and _FACTS[0] is not None:
+        # a local comparison closure called by name (`let by_text = || a.to_string().cmp(&b.to_string()); .. by_text()`)
+        cl = [x for x in walk(t[2][0]) if x[0] == "closure"]
+        cb = _FACTS[0].body(cl[0][1]) if cl else None
+        if cb is not None:
+            return _result_of(du_of(cb).local_term(0, 12), st)
     if t[0] == "call" and callee_name(t) in ("then_with", "then") and len(t[2]) == 2:
         first = _result_of(t[2][0], st)
         if first in ("<", ">"):
